@@ -112,6 +112,64 @@ def check(events, dt, total, shared=False):
     return fails[:4]
 
 
+# ---- event values that are mutable objects, consumed by another process through plain 'accumulate' updates -----------
+class Consumer(Process):
+    defaults = {'timestep': 1.0, 'kind': 'array'}
+
+    def ports_schema(self):
+        import numpy as np
+        d = np.zeros(2) if self.parameters['kind'] == 'array' else []
+        return {'fields': {'glc': {'_default': d, '_emit': True}}}
+
+    def next_update(self, timestep, states):
+        import numpy as np
+        return {'fields': {'glc': -0.25 * np.ones(2) if self.parameters['kind'] == 'array' else [0.5]}}
+
+
+CONSUMED_CASES = [(kind, pattern, dt) for kind in ('array', 'list')
+                  for pattern in ([(0, 'A'), (3, 'B'), (6, 'A')], [(1, 'A'), (2, 'A'), (5, 'B'), (5.5, 'A')], [(0, 'A'), (4, 'A')])
+                  for dt in (1, 2)]
+
+
+def check_consumed(kind, pattern, dt, total=9):
+    """the user builds a value once and lists it in several events: each event sets the variable to the value WRITTEN in the
+    timeline, so the history equals the one obtained from separate, equal objects; the timeline still holds its values"""
+    import numpy as np
+
+    def mk(tag):
+        base = [1.0, 1.0] if tag == 'A' else [5.0, 5.0]
+        return np.array(base) if kind == 'array' else list(base)
+
+    def run(events):
+        tl = TimelineProcess({'timeline': events, 'time_step': dt})
+        eng = Engine(processes={'timeline': tl, 'consumer': Consumer({'kind': kind})},
+                     topology={'timeline': {'global': ('global',), 'fields': ('fields',)}, 'consumer': {'fields': ('fields',)}},
+                     display_info=False)
+        eng.update(total)
+        hist = eng.emitter.get_timeseries()['fields']['glc']
+        return [list(map(float, v)) for v in hist], tl
+    objs = {'A': mk('A'), 'B': mk('B')}
+    shared = [(t, {('fields', 'glc'): objs[tag]}) for t, tag in pattern]
+    separate = [(t, {('fields', 'glc'): mk(tag)}) for t, tag in pattern]
+    fails = []
+    try:
+        hs, tl = run(shared)
+        hp, _ = run(separate)
+    except Exception as e:
+        return ['engine raised %s: %s' % (type(e).__name__, str(e)[:200])]
+    if hs != hp:
+        fails.append('one %s object listed in several events gives the history %s; separate equal objects give %s: '
+                     'an event did not set the value written in the timeline' % (kind, hs, hp))
+    for (t, tag), ev in zip(pattern, tl.parameters['timeline']):
+        held = list(map(float, ev[1][('fields', 'glc')]))
+        if held != list(map(float, mk(tag))):
+            fails.append('after the run the timeline holds %s for the event at t=%s, it was given %s' % (held, t, list(mk(tag))))
+    for tag in objs:
+        if list(map(float, objs[tag])) != list(map(float, mk(tag))):
+            fails.append('the value object the caller listed in the timeline was modified: %s' % list(objs[tag]))
+    return fails[:3]
+
+
 def ser(events):
     return [[t, [[list(k), v] for k, v in ch.items()]] for t, ch in events]
 
@@ -127,6 +185,11 @@ def main():
     a = ap.parse_args()
     if a.replay:
         d = json.load(open(a.replay))['scenario']
+        if 'consumed' in d:
+            kind, pattern, dt = d['consumed']
+            fails = check_consumed(kind, [tuple(x) for x in pattern], dt)
+            L.emit_result({'status': 'reproduced' if fails else 'not-reproduced', 'failed': fails})
+            return
         fails = check(deser(d['events']), d['dt'], d['total'], shared=d.get('shared', False))
         L.emit_result({'status': 'reproduced' if fails else 'not-reproduced', 'failed': fails})
         return
@@ -165,6 +228,15 @@ def main():
                 break
         if len(failures) >= 3:
             break
+    for ci, (kind, pattern, dt) in enumerate(CONSUMED_CASES):
+        if len(failures) >= 3:
+            break
+        evaluations += 1
+        distinct.add('consumed-%d' % ci)
+        fails = check_consumed(kind, pattern, dt)
+        if fails:
+            rp = L.write_replay(a.out, 'C19', 'consumed%d' % ci, {'consumed': [kind, pattern, dt]}, fails, extra={'driver': 'bounded.c19'})
+            failures.append({'id': 'C19.bounded.consumed#%d: %s' % (ci, fails[0][:240]), 'replay': rp})
     L.emit_result({'status': 'violated' if failures else 'ok', 'evaluations': evaluations,
                    'distinct_nontrivial': len(distinct), 'failures': failures, 'samples': samples,
                    'rule': 'all permutations (sampled to 24 in quick) of random event multisets x timesteps; '
